@@ -1,6 +1,7 @@
 package main
 
 import (
+	"strings"
 	"fmt"
 	"os"
 	"go/types"
@@ -45,6 +46,19 @@ func (e *Exec) VerifyFunc(fn *ssa.Function, ct *Contract, setup func(st *State, 
 	e.obls = append(e.obls, pre)
 	entry := st.Clone()
 	water0 := st.water
+	// frame of a contract with an assigns clause: the objects named there, evaluated at entry
+	var assignObjs []*Term
+	framedAssigns := len(ct.Assigns) > 0
+	for _, a := range ct.Assigns {
+		switch {
+		case a == "*":
+			framedAssigns = false
+		case a == "fresh":
+		case strings.HasPrefix(a, "obj(") && strings.HasSuffix(a, ")"):
+			v := e.evalSpec(a[4:len(a)-1], env)
+			assignObjs = append(assignObjs, LObj(v.L[0]))
+		}
+	}
 	mode := ct.Mode
 	if mode == "" {
 		mode = "panics"
@@ -77,6 +91,8 @@ func (e *Exec) VerifyFunc(fn *ssa.Function, ct *Contract, setup func(st *State, 
 			}
 			if ct.Pure {
 				e.assertPureFrame(name, fn, st, entry, water0)
+			} else if framedAssigns {
+				e.assertAssignsFrame(name, fn, st, entry, water0, assignObjs)
 			}
 			// vacuity guard: some returning path is feasible (quantified facts dropped)
 			cn := name + "/cover:returns"
@@ -105,6 +121,8 @@ func (e *Exec) VerifyFunc(fn *ssa.Function, ct *Contract, setup func(st *State, 
 			}
 			if ct.Pure {
 				e.assertPureFrame(name, fn, st, entry, water0)
+			} else if framedAssigns {
+				e.assertAssignsFrame(name, fn, st, entry, water0, assignObjs)
 			}
 		})
 	e.SafeMode = saved
@@ -124,6 +142,16 @@ var traceOn = os.Getenv("VERIF_TRACE") != ""
 // assertPureFrame: a function declared pure leaves every memory cell of every
 // object that existed at entry unchanged (it may allocate and fill fresh objects).
 func (e *Exec) assertPureFrame(name string, fn *ssa.Function, st, entry *State, water0 *Term) {
+	e.assertFrameObjs(name+"/frame:pure", "declared pure: no cell of a pre-existing object is written", fn, st, entry, water0, nil)
+}
+
+// assertAssignsFrame: a function with an assigns clause writes, among the
+// objects that existed at entry, only cells of the objects the clause names.
+func (e *Exec) assertAssignsFrame(name string, fn *ssa.Function, st, entry *State, water0 *Term, objs []*Term) {
+	e.assertFrameObjs(name+"/frame:assigns", "only the objects of the assigns clause (and fresh ones) are written", fn, st, entry, water0, objs)
+}
+
+func (e *Exec) assertFrameObjs(oname, desc string, fn *ssa.Function, st, entry *State, water0 *Term, objs []*Term) {
 	var keys []string
 	for k := range st.mem {
 		keys = append(keys, k)
@@ -133,21 +161,15 @@ func (e *Exec) assertPureFrame(name string, fn *ssa.Function, st, entry *State, 
 	for _, k := range keys {
 		old, ok := entry.mem[k]
 		if !ok {
-			// memory of this sort was first touched after entry: its initial
-			// array is the entry memory only if no unframed havoc came first
-			old = baseArray(st.mem[k])
-			for len(st.qf[old]) > 0 && len(st.qf[old]) == 2 && st.qf[old][1].rhs.Op == "select" {
-				old = baseArray(st.qf[old][1].rhs.Args[0]) // through allocation arrays
-			}
-			if !(stringsHasPrefix(old.Leaf, "M0_") || stringsHasPrefix(old.Leaf, "MH0_") || stringsHasPrefix(old.Leaf, "MV0_")) {
-				fs = append(fs, False)
-				continue
-			}
+			// memory of this sort was not touched before entry: its entry value is the canonical initial array
+			tmp := entry.Clone()
+			e.ensureMem(tmp, k)
+			old = tmp.mem[k]
 		}
 		if old == st.mem[k] {
 			continue
 		}
-		fs = append(fs, frameFormula(old, st.mem[k], nil, nil, water0))
+		fs = append(fs, frameFormula(old, st.mem[k], objs, nil, water0))
 	}
-	e.Assert(name+"/frame:pure", "frame", fn.String(), st, And(fs...), "declared pure: no cell of a pre-existing object is written")
+	e.Assert(oname, "frame", fn.String(), st, And(fs...), desc)
 }
